@@ -30,6 +30,7 @@ import flask
 from flask_login import current_user
 from langcodes import tag_is_valid
 from werkzeug.datastructures import FileStorage
+from werkzeug.utils import secure_filename
 
 from dashlive.mpeg import mp4
 from dashlive.mpeg.dash.validator.options import ValidatorOptions
@@ -77,6 +78,12 @@ class UploadHandler(RequestHandlerBase):
             logging.debug(cfe)
             # TODO: check if uploaded file needs to be deleted
             return self.return_error(str(cfe))
+        stem = Path(secure_filename(blob_info.filename)).stem
+        existing = models.MediaFile.get(name=stem)
+        if existing is not None and existing.stream_pk != current_stream.pk:
+            # media file names are unique across all streams
+            return self.return_error(
+                f'A file called {stem} already exists in another stream')
         return self.save_file(blob_info, current_stream)
 
     def return_error(self, error: str) -> flask.Response:
